@@ -176,7 +176,8 @@ Fin == /\ pc = "fin"
           \* plays (a proof element of some member, a commitment, H, a G_k); nothing else carries a non-zero scalar
           /\ LET full == allp \o <<<<Mem(1).tok.H, acc.H>>>> \o [kk \in 1..Len(acc.G) |-> <<Mem(1).tok.G[kk], acc.G[kk]>>]
                  Toks == {full[i][1] : i \in 1..Len(full)} \cup {e.obs[i][1] : i \in 1..Len(e.obs)} IN
-             \A tk \in Toks : Obs(tk) = ExpSum(full, tk, 1)
+             \* (the identity point contributes nothing whatever scalar it carries: a commitment to zero with zero blindings)
+             \A tk \in Toks \ {e.idtok} : Obs(tk) = ExpSum(full, tk, 1)
           /\ Verifying => (e.out_zero <=> (cfg.result = "ok"))
        /\ pc' = "run" /\ l' = l + 1
        /\ UNCHANGED <<scripts, abs, chal, rng, mi, r, cfg, wtid, cx, tb, dd, sc, acc, wts, allp>>
